@@ -24,11 +24,11 @@ def native_crashes(nat, text):
     return False, "no crash on %r: %s | %s" % (text, out1[:30], out2[:40])
 
 
-def run_family(chk, unit, build, max_tokens):
+def run_family(chk, unit, build, max_tokens, loop_bound=20):
     """build(ex) -> (chars, ln, description inputs). Obligation: no panic outcome while lexing the text and converting its literals."""
     ex = chk.executor(True)
     ex.string_mode = "chars"
-    ex.loop_bound = 20           # digit runs of up to 11 characters pass through digital10's loop
+    ex.loop_bound = loop_bound   # digit runs of up to 11 characters pass through digital10's loop
     nat = chk.ws.runner("dev")
     chars, ln = build(ex)
     lx, src, peek = lexskel.make_lexer(ex, chars, ln)
@@ -178,6 +178,29 @@ def fam_signed_ratio(tail):
     return build
 
 
+def fam_long_token(opener, n):
+    """an opener ('|' '"' or nothing), n times the letter a, then two arbitrary characters, then the end: tokens (and the
+    error texts built from them) around fixed lengths"""
+    def build(ex):
+        pre = [z3.IntVal(ord(opener))] if opener else []
+        chars = pre + [z3.IntVal(97)] * n + [lexskel.char_var(ex, "c%d" % i) for i in range(2)]
+        ln = z3.Int("len")
+        ex.ctx.add(ln >= len(chars) - 2, ln <= len(chars))
+        return chars, ln
+    return build
+
+
+def fam_hex_escape(nhex):
+    """'"' '\\' 'x' hex{nhex} ';' '"': hexadecimal escapes in strings (the digits are arbitrary hexadecimal digits)"""
+    def build(ex):
+        hexs_ = [lexskel.char_var(ex, "c%d" % i) for i in range(nhex)]
+        for c in hexs_:
+            ex.ctx.add(z3.Or(z3.And(c >= 48, c <= 57), z3.And(c >= 65, c <= 70), z3.And(c >= 97, c <= 102)))
+        chars = [z3.IntVal(34), z3.IntVal(92), z3.IntVal(120)] + hexs_ + [z3.IntVal(59), z3.IntVal(34)]
+        return chars, len(chars)
+    return build
+
+
 def fam_real(tail, body=5):
     """texts over the characters of real literals: digits, sign, '.', 'e', plus `tail` arbitrary characters at the end"""
     def build(ex):
@@ -197,6 +220,8 @@ def run(chk):
     N = 4 if thorough else 3
     chk.bounds = {"all texts": "every text of <= %d characters over ALL Unicode scalar values (the lexer's own branches split the classes)" % N,
                   "digit runs": "[sign] 1..11 digits + <= 1 further character; 1..3 digits '/' 0..11 digits + <= 1 further character; sign 10 digits '/' 1..2 digits + <= 1 further character; texts of <= 5 characters over digits/sign/./e + <= 1 further character",
+                  "long tokens": "'|' followed by 0..%d letters (quick: '\"' or nothing followed by 0, 1, 7, 8, 15, 16, 23, 24, 31, 32 letters; thorough: every count up to 69 for all three), then two arbitrary characters (all Unicode), then the end" % (69 if thorough else 33),
+                  "hexadecimal escapes": "a string consisting of one \\x escape with 1..6 arbitrary hexadecimal digits",
                   "stages": "Lexer::next until the end of the text, then Interpreter::eval_primitive on every literal token",
                   "literal conversion unit": "Interpreter::eval_primitive from every Integer(i32), Rational(i32, non-zero u32), Boolean and Character token; loops unrolled 8 times"}
     chk.assumptions += [
@@ -209,4 +234,9 @@ def run(chk):
     chk.step("integer literals", run_family, chk, "Lexer on [sign] digits{1..11} + one more character", fam_digits(11, 1), 4)
     chk.step("ratio literals", run_family, chk, "Lexer on digits{1..3} '/' digits{0..11} + one more character", fam_ratio(3, 11, 1), 4)
     chk.step("all texts", run_family, chk, "Lexer::next over every text of <= %d characters, then eval_primitive" % N, fam_all(N), N + 1)
+    for nh in range(1, 7):
+        chk.step("hexadecimal string escapes, %d digits" % nh, run_family, chk, "Lexer on a string with a \\x escape of %d hexadecimal digits" % nh, fam_hex_escape(nh), 3)
+    for opener in ("|", '"', ""):
+        for n in (range(0, 70) if thorough else (range(0, 34) if opener == "|" else (0, 1, 7, 8, 15, 16, 23, 24, 31, 32))):
+            chk.step("long token %s a*%d" % (opener or "identifier", n), run_family, chk, "Lexer on %s followed by n letters (n <= %d) and two arbitrary characters" % (repr(opener) if opener else "an identifier", 69 if thorough else 33), fam_long_token(opener, n), 4, n + 8)
     chk.step("real literals", run_family, chk, "Lexer on <= %d characters of digits/sign/./e + one more character" % (5 if thorough else 4), fam_real(1, 5 if thorough else 4), 5)
